@@ -74,3 +74,25 @@ def ext_reply(ver, rid, status, cal, alg=1, key=b"anon", with_status=True, extra
     if ver == 2:
         return pdu_v2(0x321, tlv(0x02, body), alg, key)
     return pdu_v1(0x300, tlv(0x302, body), alg, key)
+
+
+def children(payload):
+    """top-level elements of a TLV payload as byte strings"""
+    out, i = [], 0
+    while i < len(payload):
+        if payload[i] & 0x80:
+            n = 4 + (payload[i + 2] << 8 | payload[i + 3])
+        else:
+            n = 2 + payload[i + 1]
+        out.append(payload[i:i + n]); i += n
+    return out
+
+
+def drop_mac(pdu):
+    """the same PDU with its MAC element (the last one) left out and the length corrected: well-formed, just not authenticated"""
+    hl = 4 if pdu[0] & 0x80 else 2
+    root = ((pdu[0] & 0x1f) << 8 | pdu[1]) if pdu[0] & 0x80 else (pdu[0] & 0x1f)
+    kids = children(pdu[hl:])
+    assert (kids[-1][0] & 0x1f) == 0x1f and not kids[-1][0] & 0x80
+    return tlv(root, b"".join(kids[:-1]))
+
